@@ -6,7 +6,7 @@ import framework as fw
 import frames
 from frames import IEEE, MS, suite, rsn_body, wpa_body, elem
 
-MODULE = "LWV.Props.C08"
+MODULE = ["LWV.Props.C08", "LWV.Props.C04Full"]
 OTHER = bytes([0xAA, 0xBB, 0xCC])
 CIPHERS = list(range(0, 14))
 AKMS = list(range(0, 21))
